@@ -131,3 +131,18 @@ func shrinkAlignment(c *Case) []*Case {
 	}
 	return out
 }
+
+// runSnps runs snps.SNPs on a C03-shaped case, per sequence or aggregated
+func runSnps(c *Case, agg bool) result {
+	names := strings.Split(c.Get("names"), ",")
+	seqs := strings.Split(c.Get("seqs"), ",")
+	lr := NewRNG(idSeed(c.ID))
+	refTxt := renderFasta([]string{"ref desc"}, []string{c.Get("ref")}, randLayout(lr))
+	alnTxt := renderFasta(names, seqs, randLayout(lr))
+	thr := decThr(atoi(c.Get("thrn")), max1(atoi(c.Get("thrd"))))
+	return safeRun(20*time.Second, func() (string, error) {
+		var out bytes.Buffer
+		err := snps.SNPs(strings.NewReader(refTxt), strings.NewReader(alnTxt), c.Get("hard") == "1", agg, thr, &out)
+		return out.String(), err
+	})
+}
